@@ -1,0 +1,15 @@
+//go:build verif
+
+// Contracts for this plugin, checked by /verif/govc (comment-only file).
+
+package autoconfigure
+
+// address-less OFFER: answered (with option 116) only for clients that sent option 116, dropped otherwise
+//@ pure func addrless_offer(h Array[Loc]bv8, resp *dhcpv4.DHCPv4) bool = mtof(resp.Options) == 2 && isunspech(h, resp.YourIPAddr)
+//@ func Handler4
+//@   implements handler.Handler4
+//@   modifies everything
+//@   ensures[C17:autoconf-pass-through] !old(addrless_offer(heap8(), resp)) ==> (ret0 == resp && !ret1 && (forall k uint8: (has(resp.Options, k) <==> old(has(resp.Options, k))) && resp.Options[k] == old(resp.Options[k])))
+//@   ensures[C17:autoconf-answered] (old(addrless_offer(heap8(), resp)) && has(req.Options, 116) && ret0 != nil) ==> (ret0 == resp && !ret1 && has(resp.Options, 116) && resp.Options[116] == optenc(opt_ac(uint8(autoconfigure))))
+//@   ensures[C17:autoconf-dropped] (old(addrless_offer(heap8(), resp)) && !has(req.Options, 116)) ==> (ret0 == nil && ret1)
+//@   ensures[C17:other-options-untouched] ret0 != nil ==> (forall k uint8: k != 116 ==> ((has(resp.Options, k) <==> old(has(resp.Options, k))) && resp.Options[k] == old(resp.Options[k])))
